@@ -15,7 +15,10 @@ var c16Cfg = kit.WorldCfg{Stores: []kit.StoreCfg{
 	{Name: "things", UniqueName: true, System: true},
 	// deleted together with the thing they reference: a cascade must not lift the protection of a system entity
 	{Name: "deps", System: true, RefTo: "things", RefWiring: kit.WireConstraintDel},
-}}
+},
+	// the constraint sits on the parent store; operations issued through a child store are bound by it as well
+	Children: []kit.ChildCfg{{Name: "kidsys", Parent: "things"}},
+}
 
 var c16Universe = kit.EntUniverse{
 	IDs:    []string{"s1", "s2", "s3", "s4"},
@@ -39,6 +42,11 @@ func genC16(t *rapid.T) kit.History {
 		if rapid.IntRange(0, 3).Draw(t, l+"_dep") == 0 {
 			return kit.GenEntOpM(t, l, "deps", c16DepUniverse, m)
 		}
+		if rapid.IntRange(0, 3).Draw(t, l+"_viaChild") == 0 {
+			u := c16Universe
+			u.Extras = []string{"", "x"}
+			return kit.GenEntOpM(t, l, "kidsys", u, m)
+		}
 		return kit.GenEntOpM(t, l, "things", c16Universe, m)
 	})
 }
@@ -54,7 +62,7 @@ func runC16(h kit.History) kit.Result {
 		ok := true
 		for _, op := range tx.Ops {
 			pre := trial.Clone()
-			if e, exists := pre.Ents[op.Store][op.ID]; exists && op.Spec != nil && op.Kind != "create" && e.IsSystem != op.Spec.IsSystem {
+			if e, exists := pre.Ents[pre.BaseStore(op.Store)][op.ID]; exists && op.Spec != nil && op.Kind != "create" && e.IsSystem != op.Spec.IsSystem {
 				flip = true
 				res.Classes = append(res.Classes, fmt.Sprintf("flip-attempt:system-ctx=%v:entity-system=%v", tx.System, e.IsSystem))
 			}
@@ -77,12 +85,15 @@ func runC16(h kit.History) kit.Result {
 					if x == kit.ErrSystem {
 						refusedSystem = true
 						res.Classes = append(res.Classes, "refused:"+op.Kind)
+						if op.Store == "kidsys" {
+							res.Classes = append(res.Classes, "refused-through-child-store:"+op.Kind)
+						}
 					}
 				}
 				ok = false
 				break
 			}
-			if e, exists := pre.Ents[op.Store][op.ID]; exists && e.IsSystem && tx.System {
+			if e, exists := pre.Ents[pre.BaseStore(op.Store)][op.ID]; exists && e.IsSystem && tx.System {
 				res.Classes = append(res.Classes, "system-entity-changed-from-system-ctx:"+op.Kind)
 			}
 		}
